@@ -13,7 +13,7 @@ RULE = ('cases = (abbreviation from a generated written tree, syntax in haml/pug
         'ids/classes (no blanks), attributes, single- and multi-line text, self-closing leaves, nameless elements with implicit names; indent in tab / 2 / 3 / 4 '
         'blanks / blank+tab / "--"; 4% narrow towers 14-70 levels deep. Three oracles per case: line-by-line header + indentation, tree-from-indentation == reference tree, == tree of the HTML rendering. '
         'Non-trivial = at least two elements; distinct by (abbreviation, syntax, indent)')
-ASSUMPTIONS = ['ids and class names without blanks; text nodes stand inside an element (a top-level text node next to an element has no spelling of its own in these syntaxes); text without line-leading "|" and without trailing " |"',
+ASSUMPTIONS = ['ids and class names without blanks (names a shorthand cannot spell - dots, colons, slashes - are expected in the attribute list); a text node stands inside an element or, at the top level, right after one (a line of its own); text without line-leading "|" and without trailing " |"',
                'a leaf without text ends with the caret position: trailing blanks of a header line are ignored',
                'attribute values are printed between double quotes (attribute options are C03)']
 FLOORS = {'quick': {'case': 22000, 'tower': 600, 'builtin': 3000}, 'thorough': {'case': 280000, 'tower': 9000, 'builtin': 3000}}
@@ -80,8 +80,18 @@ def gen(rng, depth=0, max_depth=3):
                 info['attrs'] = [('class', '""', rng.choice(['[class]', '[class=""]']))] + info['attrs']       # nothing to print as a shorthand: an ordinary attribute
             if not info['id'] and rng.random() < 0.06:
                 info['attrs'] = info['attrs'] + [('id', '""', rng.choice(['[id]', '[id=""]']))]
+            if rng.random() < 0.07:
+                # names no `.class` / `#id` shorthand can spell (utility classes with dots, colons, slashes; dotted ids): written as ordinary attributes
+                if info['classes'] and rng.random() < 0.7:
+                    info['classes'][rng.randrange(len(info['classes']))] = rng.choice(['p-1.5', 'md:flex', 'w-1/2', 'a.b', 'x:y-z', 'top-[3px]'.replace('[', '').replace(']', '')])
+                elif info['id']:
+                    info['id'] = rng.choice(['user.name', 'a:b', 'x.1'])
             ids = ['#' + info['id']] if info['id'] else []
             cls = ['.' + c for c in info['classes']]
+            if any(not RE_SHORT.match(c) for c in info['classes']):
+                cls = ['[class="%s"]' % ' '.join(info['classes'])]
+            if info['id'] and not RE_SHORT.match(info['id']):
+                ids = ['[id=%s]' % info['id']]
             if len(info['classes']) >= 2 and rng.random() < 0.15:
                 # the same class list written as a bracket attribute whose value mixes text and tabstop fields (blanks next to a field separate all the same)
                 k = rng.randrange(len(info['classes']))
@@ -139,17 +149,26 @@ def expected_lines(nodes, depth, parent, out):
             expected_lines(n.children, depth + 1, name, out)
 
 
+RE_SHORT = re.compile(r'^[\w-]+$')
+
+
 def header(e, syntax):
     info = e['info']
-    primary = bool(info['id'] or info['classes'])
+    long_cls = any(not RE_SHORT.match(c) for c in info['classes'])
+    long_id = bool(info['id']) and not RE_SHORT.match(info['id'])
+    ids = '#' + info['id'] if info['id'] and not long_id else ''
+    cls = '.' + '.'.join(info['classes']) if info['classes'] and not long_cls else ''
+    primary = bool(ids or cls)
     head = ''
     if not (e['name'] == 'div' and primary):
         head = ('%' if syntax == 'haml' else '') + e['name']
-    ids = '#' + info['id'] if info['id'] else ''
-    cls = '.' + '.'.join(info['classes']) if info['classes'] else ''
     head += ids + cls if info['id_first'] else cls + ids
-    if info['attrs']:
-        pairs = [a[0] + ('=true' if syntax == 'haml' else '') if a[1] is True else '%s=%s' % (a[0], a[1]) for a in info['attrs']]
+    attrs = list(info['attrs'])
+    # what the shorthand cannot spell stands in the attribute list, in the order of mention
+    extra = ([('id', '"%s"' % info['id'], None)] if long_id else []), ([('class', '"%s"' % ' '.join(info['classes']), None)] if long_cls else [])
+    attrs = (extra[0] + extra[1] if info['id_first'] else extra[1] + extra[0]) + attrs
+    if attrs:
+        pairs = [a[0] + ('=true' if syntax == 'haml' else '') if a[1] is True else '%s=%s' % (a[0], a[1]) for a in attrs]
         if syntax == 'haml':
             head += '(' + ' '.join(pairs) + ')'
         elif syntax == 'pug':
@@ -416,6 +435,16 @@ def run_shard(desc, ctx):
                 ctx.ev('tower')
             else:
                 tree = gen(rng, 0, rng.choice([2, 3, 3, 4]) if rng.random() < 0.9 else rng.choice([8, 10, 12]))
+            if rng.random() < 0.12:
+                # a text node at the top level right after an element (`img+{t}`, `br/+{a}+p`): a line of its own, or the element before it reads `bra`
+                spots = [j + 1 for j, x in enumerate(tree) if x.kind == 'e' and not (isinstance(x.tag, dict) and x.tag.get('textnode')) and not x.rep]
+                if spots:
+                    t = gen_abbr.Node('e')
+                    t.name = None
+                    t.text = rng.choice(['tx', 'two words', 'q', 'a'])
+                    t.tag = {'textnode': True}
+                    tree.insert(rng.choice(spots), t)
+                    ctx.ev('toplevel-text-after-element')
             abbr = gen_abbr.write(tree, rng)[0]
             exp = []
             expected_lines(tree, 0, None, exp)
